@@ -242,7 +242,7 @@ func (d *syDrv) senderRound() {
 	if k+24 > d.n || d.multi != nil {
 		return
 	}
-	shape := []string{"prefed", "stream", "recvrestart", "two", "prefed", "stream"}[d.rng.Intn(6)]
+	shape := []string{"prefed", "stream", "recvrestart", "two", "prefed", "stream", "handover"}[d.rng.Intn(7)]
 	if shape == "recvrestart" && !d.restarts {
 		shape = "stream"
 	}
@@ -270,6 +270,10 @@ func (d *syDrv) senderRound() {
 		if m2 > hi {
 			hi = m2
 		}
+	}
+	if shape == "handover" {
+		d.handover(a, k, j, m, stop)
+		return
 	}
 	d.emit(trace.M{"ev": "send", "batch": batch})
 	restarted := make(chan error, 1)
@@ -328,6 +332,50 @@ func (d *syDrv) senderRound() {
 		d.obs("restart")
 		return
 	}
+	d.obs("deliver")
+}
+
+// handover: two learner replicas apply the same source log; `a` is the learner leader and sends, `c`
+// is a standby with the ignore-send switch on (its ApplyRaftRequest returns only when the destination
+// has the entry).  Then the leader goes away, the standby is switched to sending and carries on.
+func (d *syDrv) handover(a node.StateMachine, k, j, m int, stop chan struct{}) {
+	c, err := d.newSender()
+	if err != nil || !node.VerifSyncSwitchIgnoreSend(c, true) {
+		a.Close()
+		return
+	}
+	m2 := m + 1 + d.rng.Intn(6)
+	d.emit(trace.M{"ev": "send", "batch": seqInts(j, m2)})
+	c.Start()
+	fed := make(chan struct{})
+	go func() {
+		d.feedOther(c, j, m, stop)
+		close(fed)
+	}()
+	a.Start()
+	d.feedOther(a, j, m, stop)
+	said := senderSaid(a, m, 900)
+	select {
+	case <-fed:
+	case <-time.After(20 * time.Second):
+		said = false
+	}
+	a.Close()
+	if said {
+		node.VerifSyncSwitchIgnoreSend(c, false)
+		d.feedOther(c, m+1, m2, stop)
+		said = senderSaid(c, m2, 900)
+	}
+	close(stop)
+	c.Close()
+	code, msg := 0, ""
+	if !said {
+		code, msg = 1, "a sender did not report its entries as synced in time"
+	}
+	d.emit(trace.M{"ev": "deliver", "batch": seqInts(j, m2), "bad": 0, "code": code, "msg": msg, "via": "logSyncerSM-handover"})
+	d.count("deliveries")
+	d.count("deliveries_by_real_sender")
+	d.count("sender_handover")
 	d.obs("deliver")
 }
 
